@@ -321,6 +321,37 @@ def _coord_from_geo_rule(ck, P):
             ok = is_zero(ops[0]["a"][0]) and is_top(ops[0]["a"][1])
         if not ok:
             bad.append("%s: %s" % (f["name"], names or ir.place_str(e)))
+    # the projected value goes through tan / ln, so a corner that lies ON a tile edge arrives as k +- 1e-15: it is rounded with a positive
+    # tolerance towards the INSIDE of the box - floor(v + eps) for a lower corner, floor(v - eps) (or ceil(v - eps) - 1) for an upper corner.
+    # Exact rounding puts half of the tile-aligned boxes one row too far out.
+    rp = [x for p_ in b["params"] for x in ir.pat_binds(p_) if x["t"] == "bool"]
+    rounds = []
+    for y, ps_, _ in ir.walk(b["body"]):
+        if y.get("k") == "mcall" and y.get("name") in ("floor", "ceil", "round", "trunc") and (ir.strip(y["recv"]).get("t") in ("f64", "f32")):
+            br = None
+            for i_, p_ in enumerate(ps_):
+                if p_.get("k") == "if" and rp and ir.local_hid(ir.strip(ir.unparen(ir.strip(p_["c"])))) == rp[0]["hid"]:
+                    br = "up" if ir.contains(p_["then"], lambda z: z is y) else "down"
+            r = ir.unparen(ir.strip(y["recv"]))
+            sign = None
+            if r.get("k") == "mcall" and r.get("name") in ("add", "sub") and r.get("a"):
+                v = ir.strip(r["a"][0]).get("v")
+                try:
+                    sign = ("+" if r["name"] == "add" else "-") if float(v) > 0 else None
+                except (TypeError, ValueError):
+                    sign = None
+            elif r.get("k") == "bin" and r.get("op") in ("+", "-"):
+                v = ir.strip(r["r"]).get("v")
+                try:
+                    sign = r["op"] if float(v) > 0 else None
+                except (TypeError, ValueError):
+                    sign = None
+            rounds.append((br, y["name"], sign))
+    want_ok = len(rounds) == 4 and sorted(rounds, key=str) == sorted([("up", "floor", "-")] * 2 + [("down", "floor", "+")] * 2, key=str) or \
+        (len(rounds) == 4 and sorted(rounds, key=str) == sorted([("up", "ceil", "-")] * 2 + [("down", "floor", "+")] * 2, key=str))
+    ck.check(want_ok, "R-SELECT", "coord_from_geo|tolerance", "corners are rounded with a positive tolerance towards the inside of the box: floor(v + eps) for a lower, floor(v - eps) for an upper corner",
+             "TileCoord2::from_geo rounds the projected corner without a tolerance towards the inside of the box (%s): a box edge that lies on a tile edge arrives as k +- 1e-15 after tan/ln, and exact "
+             "rounding selects a surplus row of tiles that only touch the box" % rounds, ir.loc(b))
     ck.check(not bad and bool(zooms), "R-SELECT", "coord_from_geo|clamped", "both tile indices are clamped into [0, 2^z - 1] after the rounding guard",
              "a tile index is not clamped into [0, 2^z - 1] (%s): a corner on the edge of the world wraps around or leaves the grid" % bad, ir.loc(st[0]))
 
